@@ -206,3 +206,824 @@ Section FF.
     rewrite <- E. exact C3.
   Qed.
 End FF.
+
+(** ---------- why looking at the elements i-1 and i is enough ----------
+    (the comment in the code: "The deeper zuniq may be lower or higher than the one's of the larger cells
+    containing it").  A cell (d, c) owns the interval [2 c 4^k, 2 (c+1) 4^k), k = maxd - d, of the zuniq
+    axis; its own zuniq (2c+1) 4^k lies inside, and so does the zuniq of every cell it contains; cells that
+    do not overlap own disjoint intervals.  Hence, in a sorted vector of non-overlapping cells, the only
+    element inside the interval of the container of the searched cell is the container itself, and the
+    number of elements below the searched key is the container's position or that position plus one. *)
+From Coq Require Import Sorted.
+
+Lemma count_lt_app key a b : ff_count_lt key (a ++ b) = (ff_count_lt key a + ff_count_lt key b)%nat.
+Proof. unfold ff_count_lt. rewrite filter_app, app_length. reflexivity. Qed.
+
+Lemma count_lt_all key l : Forall (fun y => y < key) l -> ff_count_lt key l = length l.
+Proof.
+  unfold ff_count_lt. induction 1 as [|y l Hy _ IH]; [reflexivity|]. cbn [filter].
+  destruct (N.ltb_spec y key); [cbn [length]; rewrite IH; reflexivity|lia].
+Qed.
+
+Lemma count_lt_none key l : Forall (fun y => key <= y) l -> ff_count_lt key l = O.
+Proof.
+  unfold ff_count_lt. induction 1 as [|y l Hy _ IH]; [reflexivity|]. cbn [filter].
+  destruct (N.ltb_spec y key); [lia|exact IH].
+Qed.
+
+Theorem lookup_position (before after : list N) (z lo hi key : N) :
+  StronglySorted N.lt (before ++ z :: after) ->
+  lo <= z < hi -> lo <= key < hi ->
+  Forall (fun y => y < lo \/ hi <= y) (before ++ after) ->
+  ff_count_lt key (before ++ z :: after) = (if z <? key then S (length before) else length before).
+Proof.
+  intros Hs Hz Hk Hout.
+  apply Forall_app in Hout. destruct Hout as [Hb Ha].
+  assert (Hbz : Forall (fun y => y < z) before).
+  { clear - Hs. induction before as [|b t IH]; [constructor|].
+    cbn [app] in Hs. inversion Hs as [|? ? Hs' Hall]; subst. constructor.
+    - rewrite Forall_forall in Hall. apply Hall. apply in_or_app. right. left. reflexivity.
+    - apply IH. exact Hs'. }
+  assert (Haz : Forall (fun y => z < y) after).
+  { clear - Hs. induction before as [|b t IH]; cbn [app] in Hs.
+    - inversion Hs; assumption.
+    - inversion Hs; subst. apply IH. assumption. }
+  assert (Hb' : Forall (fun y => y < key) before).
+  { apply Forall_forall. intros y Hy. rewrite Forall_forall in Hb, Hbz. specialize (Hb y Hy). specialize (Hbz y Hy). lia. }
+  assert (Ha' : Forall (fun y => key <= y) after).
+  { apply Forall_forall. intros y Hy. rewrite Forall_forall in Ha, Haz. specialize (Ha y Hy). specialize (Haz y Hy). lia. }
+  rewrite count_lt_app, (count_lt_all _ _ Hb').
+  change (z :: after) with ([z] ++ after). rewrite count_lt_app, (count_lt_none _ _ Ha').
+  unfold ff_count_lt at 1. cbn [filter]. destruct (z <? key); cbn [length]; lia.
+Qed.
+
+(** the interval of a cell on the zuniq axis, and the facts used above *)
+Section ZInterval.
+  Variable maxd : N.
+  Definition zlo (d c : N) : N := 2 * c * 4 ^ (maxd - d).
+  Definition zhi (d c : N) : N := 2 * (c + 1) * 4 ^ (maxd - d).
+
+  Lemma zuniq_inside d c : zlo d c <= ff_zuniq maxd d c < zhi d c.
+  Proof. unfold zlo, zhi, ff_zuniq. pose proof (N.pow_nonzero 4 (maxd - d) ltac:(lia)). nia. Qed.
+
+  (** a cell x of depth dmax contained in (d, c), d <= dmax <= maxd: its zuniq is inside the interval of (d, c) *)
+  Lemma contained_inside d c dmax x : d <= dmax -> dmax <= maxd -> x / 4 ^ (dmax - d) = c ->
+    zlo d c <= ff_zuniq maxd dmax x < zhi d c.
+  Proof.
+    intros Hd Hm Hx. unfold zlo, zhi, ff_zuniq.
+    replace (maxd - d) with ((dmax - d) + (maxd - dmax)) by lia. rewrite N.pow_add_r.
+    set (a := 4 ^ (dmax - d)). set (b := 4 ^ (maxd - dmax)).
+    assert (Ha : a <> 0) by (apply N.pow_nonzero; lia). assert (Hb : b <> 0) by (apply N.pow_nonzero; lia).
+    assert (Hdm : x = a * c + x mod a /\ x mod a < a).
+    { split; [rewrite <- Hx; apply N.div_mod; exact Ha|apply N.mod_lt; exact Ha]. }
+    destruct Hdm as [E Hr]. remember (x mod a) as r. nia.
+  Qed.
+
+  (** two cells that do not overlap (their ranges at the deepest level are disjoint) own disjoint intervals *)
+  Lemma disjoint_intervals d c d' c' :
+    (c + 1) * 4 ^ (maxd - d) <= c' * 4 ^ (maxd - d') \/ (c' + 1) * 4 ^ (maxd - d') <= c * 4 ^ (maxd - d) ->
+    ff_zuniq maxd d' c' < zlo d c \/ zhi d c <= ff_zuniq maxd d' c'.
+  Proof.
+    unfold zlo, zhi, ff_zuniq. pose proof (N.pow_nonzero 4 (maxd - d) ltac:(lia)). pose proof (N.pow_nonzero 4 (maxd - d') ltac:(lia)).
+    intros [H1|H1]; [right|left]; nia.
+  Qed.
+End ZInterval.
+
+(** ---------- one search on a fresh vector finds the cell that contains the searched cell ---------- *)
+Section VisitFinds.
+  Variable maxd dmax : N.
+  Hypothesis Hmaxd : maxd <= 64.
+  Hypothesis Hdmax : dmax <= maxd.
+
+  Definition zun (c : N * N) : N := ff_zuniq maxd (fst c) (snd c).
+  Definition disj (a b : N * N) : Prop :=
+    (snd a + 1) * 4 ^ (maxd - fst a) <= snd b * 4 ^ (maxd - fst b) \/
+    (snd b + 1) * 4 ^ (maxd - fst b) <= snd a * 4 ^ (maxd - fst a).
+  Definition contains (a : N * N) (x : N) : Prop := x / 4 ^ (dmax - fst a) = snd a.
+
+  Lemma count_lt_double key l : ff_count_lt (2 * key) (map (fun z => 2 * z) l) = ff_count_lt key l.
+  Proof.
+    unfold ff_count_lt. induction l as [|y t IH]; [reflexivity|]. cbn [map filter].
+    destruct (N.ltb_spec (2 * y) (2 * key)), (N.ltb_spec y key); try lia; cbn [length]; rewrite ?IH; reflexivity.
+  Qed.
+
+  Lemma not_container a b x : fst a <= dmax -> fst b <= dmax -> disj a b -> contains a x -> ~ contains b x.
+  Proof.
+    intros Ha Hb Hd Ca Cb. unfold contains in *.
+    pose proof (contained_inside maxd (fst a) (snd a) dmax x Ha Hdmax Ca) as [A1 A2].
+    pose proof (contained_inside maxd (fst b) (snd b) dmax x Hb Hdmax Cb) as [B1 B2].
+    unfold zlo, zhi in *. unfold disj in Hd. destruct Hd as [H|H]; nia.
+  Qed.
+
+  Lemma elems_nth cells p c : nth_error cells p = Some c ->
+    nth_error (map (fun c : N * N => 2 * zun c) cells) p = Some (2 * zun c).
+  Proof. intros H. rewrite nth_error_map, H. reflexivity. Qed.
+
+  Lemma even_unflagged z : ff_flagged (2 * z) = false.
+  Proof. unfold ff_flagged. rewrite N.mul_comm, N.mod_mul by lia. reflexivity. Qed.
+
+  Lemma half_double z : 2 * z / 2 = z.
+  Proof. rewrite N.mul_comm, N.div_mul by lia. reflexivity. Qed.
+
+  (** try_mark on an unflagged element of a fresh vector: marks exactly when the element contains x *)
+  Lemma try_mark_fresh elems stack p c x : nth_error elems p = Some (2 * zun c) -> fst c <= dmax ->
+    ff_try_mark maxd dmax x p (elems, stack) =
+    if snd c =? x / 4 ^ (dmax - fst c) then (set_flag p elems, stack ++ [zun c]) else (elems, stack).
+  Proof.
+    intros Hn Hc. unfold ff_try_mark. cbn [fst snd]. rewrite Hn, even_unflagged, half_double.
+    unfold zun. rewrite (from_zuniq_zuniq maxd (fst c) (snd c) ltac:(lia) Hmaxd). cbn [fst snd]. reflexivity.
+  Qed.
+
+  Lemma set_flag_other : forall elems p q, p <> q -> nth_error (set_flag p elems) q = nth_error elems q.
+  Proof.
+    induction elems as [|e t IH]; intros p q Hpq; [destruct p; reflexivity|].
+    destruct p as [|p], q as [|q]; cbn [set_flag nth_error]; try reflexivity; [congruence|].
+    apply IH. congruence.
+  Qed.
+
+  Theorem visit_finds_container bc a ac stack x :
+    let cells := bc ++ a :: ac in
+    let elems := map (fun c : N * N => 2 * zun c) cells in
+    Forall (fun c => fst c <= dmax) cells ->
+    StronglySorted N.lt (map zun cells) ->
+    Forall (disj a) (bc ++ ac) ->
+    contains a x ->
+    ff_visit maxd dmax (elems, stack) x = (set_flag (length bc) elems, stack ++ [zun a]).
+  Proof.
+    intros cells elems Hdep Hs Hdis Hc.
+    assert (Ha : fst a <= dmax).
+    { rewrite Forall_forall in Hdep. apply Hdep. unfold cells. apply in_or_app. right. left. reflexivity. }
+    set (p := length bc).
+    assert (Hnp : nth_error cells p = Some a).
+    { unfold cells, p. rewrite nth_error_app2 by lia. rewrite Nat.sub_diag. reflexivity. }
+    pose proof (contained_inside maxd (fst a) (snd a) dmax x Ha Hdmax Hc) as Hkey.
+    pose proof (zuniq_inside maxd (fst a) (snd a)) as Hz.
+    assert (Hout : Forall (fun y => y < zlo maxd (fst a) (snd a) \/ zhi maxd (fst a) (snd a) <= y) (map zun bc ++ map zun ac)).
+    { rewrite <- map_app. rewrite Forall_map. eapply Forall_impl; [|exact Hdis]. intros b Hb.
+      apply (disjoint_intervals maxd (fst a) (snd a) (fst b) (snd b)). exact Hb. }
+    assert (Hcount : ff_count_lt (2 * ff_zuniq maxd dmax x) elems =
+                     (if zun a <? ff_zuniq maxd dmax x then S p else p)).
+    { unfold elems. rewrite <- (map_map zun (fun z => 2 * z)), count_lt_double.
+      unfold cells. rewrite map_app. cbn [map].
+      rewrite (lookup_position (map zun bc) (map zun ac) (zun a) (zlo maxd (fst a) (snd a)) (zhi maxd (fst a) (snd a)) (ff_zuniq maxd dmax x));
+        [rewrite map_length; reflexivity| |exact Hz|exact Hkey|exact Hout].
+      unfold cells in Hs. rewrite map_app in Hs. exact Hs. }
+    (* the other candidates do not contain x *)
+    assert (Hother : forall q b, nth_error cells q = Some b -> q <> p -> (snd b =? x / 4 ^ (dmax - fst b)) = false).
+    { intros q b Hq Hqp. apply N.eqb_neq. intros E.
+      assert (Hin : In b (bc ++ ac)).
+      { unfold cells in Hq. destruct (Nat.lt_ge_cases q (length bc)) as [Hl|Hl].
+        - rewrite nth_error_app1 in Hq by exact Hl. apply in_or_app. left. eapply nth_error_In. exact Hq.
+        - rewrite nth_error_app2 in Hq by exact Hl. destruct (q - length bc)%nat as [|k] eqn:Ek; [unfold p in Hqp; lia|].
+          apply in_or_app. right. apply (nth_error_In ac k). exact Hq. }
+      rewrite Forall_forall in Hdis, Hdep.
+      apply (not_container a b x Ha); [apply Hdep; unfold cells; apply in_or_app; apply in_app_or in Hin; destruct Hin; [left; assumption|right; right; assumption]|apply Hdis; exact Hin|exact Hc|].
+      unfold contains. symmetry. exact E. }
+    assert (Hself : (snd a =? x / 4 ^ (dmax - fst a)) = true) by (apply N.eqb_eq; symmetry; exact Hc).
+    unfold ff_visit. cbv zeta. cbn [fst snd]. rewrite Hcount.
+    destruct (N.ltb_spec (zun a) (ff_zuniq maxd dmax x)) as [Hlt|Hge].
+    - (* the container is just below the insertion point *)
+      pose proof (try_mark_fresh elems stack p a x (elems_nth cells p a Hnp) Ha) as T1. rewrite Hself in T1.
+      destruct (nth_error elems (S p)) as [y|] eqn:Ey.
+      + unfold elems in Ey. rewrite nth_error_map in Ey. destruct (nth_error cells (S p)) as [b|] eqn:Eb; [|discriminate].
+        assert (Ey' : y = 2 * zun b) by (cbn [option_map] in Ey; congruence). subst y. clear Ey.
+        assert (Hbne : (2 * zun b =? 2 * ff_zuniq maxd dmax x) = false).
+        { apply N.eqb_neq. intros E.
+          assert (Hin : In b (bc ++ ac)).
+          { unfold cells in Eb. rewrite nth_error_app2 in Eb by (unfold p; lia). replace (S p - length bc)%nat with 1%nat in Eb by (unfold p; lia).
+            apply in_or_app. right. apply (nth_error_In ac 0). exact Eb. }
+          rewrite Forall_forall in Hout. specialize (Hout (zun b)).
+          assert (In (zun b) (map zun bc ++ map zun ac)) by (rewrite <- map_app; apply in_map; exact Hin).
+          specialize (Hout H). lia. }
+        rewrite Hbne. rewrite T1.
+        assert (Hb : fst b <= dmax).
+        { rewrite Forall_forall in Hdep. apply Hdep. eapply nth_error_In. exact Eb. }
+        rewrite (try_mark_fresh (set_flag p elems) (stack ++ [zun a]) (S p) b x); [|rewrite set_flag_other by lia; apply elems_nth; exact Eb|exact Hb].
+        rewrite (Hother (S p) b Eb ltac:(lia)). reflexivity.
+      + exact T1.
+    - (* the container is at the insertion point *)
+      pose proof (elems_nth cells p a Hnp) as En. fold elems in En. rewrite En.
+      destruct (N.eqb_spec (2 * zun a) (2 * ff_zuniq maxd dmax x)) as [Heq|Hne].
+      + rewrite half_double. reflexivity.
+      + assert (T0 : (match p with O => (elems, stack) | S j => ff_try_mark maxd dmax x j (elems, stack) end) = (elems, stack)).
+        { destruct p as [|j] eqn:Ep; [reflexivity|].
+          destruct (nth_error cells j) as [b|] eqn:Eb.
+          - assert (Hb : fst b <= dmax) by (rewrite Forall_forall in Hdep; apply Hdep; eapply nth_error_In; exact Eb).
+            rewrite (try_mark_fresh elems stack j b x (elems_nth cells j b Eb) Hb).
+            rewrite (Hother j b Eb ltac:(lia)). reflexivity.
+          - apply nth_error_None in Eb. assert (length cells > j)%nat; [|lia].
+            unfold cells. rewrite app_length. cbn [length]. unfold p in Ep. lia. }
+        rewrite T0.
+        pose proof (try_mark_fresh elems stack p a x (elems_nth cells p a Hnp) Ha) as T1. rewrite Hself in T1. exact T1.
+  Qed.
+End VisitFinds.
+
+(** ---------- one search on ANY vector (some elements already flagged) ---------- *)
+Section VisitGeneral.
+  Variable maxd dmax : N.
+  Hypothesis Hmaxd : maxd <= 64.
+  Hypothesis Hdmax : dmax <= maxd.
+
+  Notation fcell := ((N * N) * bool)%type.          (* cell, visited flag *)
+  Definition enc (e : fcell) : N := 2 * zun maxd (fst e) + (if snd e then 1 else 0).
+  Definition fcells_ok (l : list fcell) : Prop :=
+    Forall (fun e => fst (fst e) <= dmax) l /\
+    StronglySorted N.lt (map (fun e => zun maxd (fst e)) l) /\
+    ForallOrdPairs (fun a b => disj maxd (fst a) (fst b)) l.
+
+  Lemma enc_flag e : ff_flagged (enc e) = snd e.
+  Proof.
+    unfold ff_flagged, enc. destruct (snd e).
+    - replace (2 * zun maxd (fst e) + 1) with (1 + zun maxd (fst e) * 2) by lia. rewrite N.mod_add by lia. reflexivity.
+    - rewrite N.add_0_r, N.mul_comm, N.mod_mul by lia. reflexivity.
+  Qed.
+
+  Lemma enc_half e : enc e / 2 = zun maxd (fst e).
+  Proof.
+    unfold enc. destruct (snd e).
+    - replace (2 * zun maxd (fst e) + 1) with (1 + zun maxd (fst e) * 2) by lia. rewrite N.div_add by lia. reflexivity.
+    - rewrite N.add_0_r, N.mul_comm, N.div_mul by lia. reflexivity.
+  Qed.
+
+  Lemma count_lt_enc key l : ff_count_lt (2 * key) (map enc l) = ff_count_lt key (map (fun e => zun maxd (fst e)) l).
+  Proof.
+    unfold ff_count_lt. induction l as [|e t IH]; [reflexivity|]. cbn [map filter].
+    assert (Hb : (enc e <? 2 * key) = (zun maxd (fst e) <? key)).
+    { unfold enc. destruct (snd e).
+      - destruct (N.ltb_spec (2 * zun maxd (fst e) + 1) (2 * key)), (N.ltb_spec (zun maxd (fst e)) key); try reflexivity; lia.
+      - destruct (N.ltb_spec (2 * zun maxd (fst e) + 0) (2 * key)), (N.ltb_spec (zun maxd (fst e)) key); try reflexivity; lia. }
+    rewrite Hb. destruct (zun maxd (fst e) <? key); cbn [length]; rewrite ?IH; reflexivity.
+  Qed.
+
+  Definition mark_at (p : nat) (l : list fcell) : list fcell :=
+    firstn p l ++ match skipn p l with [] => [] | e :: t => (fst e, true) :: t end.
+
+  Lemma set_flag_enc : forall l p e, nth_error l p = Some e -> snd e = false ->
+    set_flag p (map enc l) = map enc (mark_at p l).
+  Proof.
+    induction l as [|x t IH]; intros p e Hn Hf; [destruct p; discriminate|].
+    destruct p as [|p]; cbn [nth_error] in Hn.
+    - inversion Hn; subst x. unfold mark_at. cbn [firstn skipn app map set_flag]. f_equal.
+      unfold enc. cbn [fst snd]. rewrite Hf. lia.
+    - unfold mark_at in *. cbn [firstn skipn app map set_flag]. f_equal. apply (IH p e Hn Hf).
+  Qed.
+
+  (** try_mark on element p of the encoded vector *)
+  Lemma try_mark_enc l stack p e x : nth_error l p = Some e -> fst (fst e) <= dmax ->
+    ff_try_mark maxd dmax x p (map enc l, stack) =
+    if snd e then (map enc l, stack)
+    else if snd (fst e) =? x / 4 ^ (dmax - fst (fst e)) then (map enc (mark_at p l), stack ++ [zun maxd (fst e)])
+         else (map enc l, stack).
+  Proof.
+    intros Hn Hc. unfold ff_try_mark. cbn [fst snd]. rewrite nth_error_map, Hn. cbn [option_map].
+    rewrite enc_flag. destruct (snd e) eqn:Ef; [reflexivity|].
+    rewrite enc_half. unfold zun. rewrite (from_zuniq_zuniq maxd (fst (fst e)) (snd (fst e)) ltac:(lia) Hmaxd). cbn [fst snd].
+    destruct (_ =? _); [|reflexivity]. rewrite (set_flag_enc l p e Hn Ef). reflexivity.
+  Qed.
+
+  Lemma try_mark_noncont l stack q b x : nth_error l q = Some b -> fst (fst b) <= dmax -> ~ contains dmax (fst b) x ->
+    ff_try_mark maxd dmax x q (map enc l, stack) = (map enc l, stack).
+  Proof.
+    intros Hn Hb Hc. rewrite (try_mark_enc l stack q b x Hn Hb). destruct (snd b); [reflexivity|].
+    destruct (N.eqb_spec (snd (fst b)) (x / 4 ^ (dmax - fst (fst b)))) as [E|E]; [|reflexivity].
+    exfalso. apply Hc. unfold contains. symmetry. exact E.
+  Qed.
+
+  Lemma mark_at_other : forall l p q, p <> q -> nth_error (mark_at p l) q = nth_error l q.
+  Proof.
+    induction l as [|e t IH]; intros p q Hpq; [unfold mark_at; destruct p; reflexivity|].
+    destruct p as [|p], q as [|q]; unfold mark_at in *; cbn [firstn skipn app nth_error]; try reflexivity; [congruence|].
+    apply IH. congruence.
+  Qed.
+
+  Lemma zun_inj a b : fst a <= maxd -> fst b <= maxd -> zun maxd a = zun maxd b -> a = b.
+  Proof.
+    intros Ha Hb E. unfold zun in E.
+    pose proof (from_zuniq_zuniq maxd (fst a) (snd a) Ha Hmaxd) as Fa.
+    pose proof (from_zuniq_zuniq maxd (fst b) (snd b) Hb Hmaxd) as Fb.
+    rewrite E in Fa. rewrite Fa in Fb. destruct a, b. cbn [fst snd] in *. congruence.
+  Qed.
+
+  (** the result of one search: the unflagged container of x, if any, is flagged and pushed; nothing else changes *)
+  Theorem visit_general bc e ac stack x :
+    let l := bc ++ e :: ac in
+    fcells_ok l -> contains dmax (fst e) x ->
+    ff_visit maxd dmax (map enc l, stack) x =
+    if snd e then (map enc l, stack) else (map enc (mark_at (length bc) l), stack ++ [zun maxd (fst e)]).
+  Proof.
+    intros l [Hdep [Hs Hdis]] Hc.
+    set (a := fst e) in *. set (p := length bc).
+    assert (Ha : fst a <= dmax).
+    { rewrite Forall_forall in Hdep. apply (Hdep e). unfold l. apply in_or_app. right. left. reflexivity. }
+    assert (Hnp : nth_error l p = Some e).
+    { unfold l, p. rewrite nth_error_app2 by lia. rewrite Nat.sub_diag. reflexivity. }
+    assert (HdisA : Forall (fun b => disj maxd a (fst b)) (bc ++ ac)).
+    { unfold l in Hdis. clear - Hdis. unfold a.
+      induction bc as [|b t IH]; cbn [app] in *.
+      - inversion Hdis; assumption.
+      - inversion Hdis as [|? ? H1 H2]; subst. constructor.
+        + rewrite Forall_forall in H1. specialize (H1 e ltac:(apply in_or_app; right; left; reflexivity)).
+          unfold disj in *. tauto.
+        + apply IH. exact H2. }
+    pose proof (contained_inside maxd (fst a) (snd a) dmax x Ha Hdmax Hc) as Hkey.
+    pose proof (zuniq_inside maxd (fst a) (snd a)) as Hz.
+    set (zf := fun b : (N * N) * bool => zun maxd (fst b)).
+    assert (Hout : Forall (fun y => y < zlo maxd (fst a) (snd a) \/ zhi maxd (fst a) (snd a) <= y) (map zf bc ++ map zf ac)).
+    { rewrite <- map_app. rewrite Forall_map. eapply Forall_impl; [|exact HdisA]. intros b Hb.
+      apply (disjoint_intervals maxd (fst a) (snd a) (fst (fst b)) (snd (fst b))). exact Hb. }
+    assert (Hcount : ff_count_lt (2 * ff_zuniq maxd dmax x) (map enc l) =
+                     (if zun maxd a <? ff_zuniq maxd dmax x then S p else p)).
+    { rewrite count_lt_enc. fold zf. unfold l. rewrite map_app. cbn [map].
+      rewrite (lookup_position (map zf bc) (map zf ac) (zf e) (zlo maxd (fst a) (snd a)) (zhi maxd (fst a) (snd a)) (ff_zuniq maxd dmax x));
+        [rewrite map_length; reflexivity| |exact Hz|exact Hkey|exact Hout].
+      unfold l in Hs. rewrite map_app in Hs. exact Hs. }
+    assert (Hin_other : forall q b, nth_error l q = Some b -> q <> p -> In b (bc ++ ac)).
+    { intros q b Hq Hqp. unfold l in Hq. destruct (Nat.lt_ge_cases q (length bc)) as [Hl|Hl].
+      - rewrite nth_error_app1 in Hq by exact Hl. apply in_or_app. left. eapply nth_error_In. exact Hq.
+      - rewrite nth_error_app2 in Hq by exact Hl. destruct (q - length bc)%nat as [|k] eqn:Ek; [unfold p in Hqp; lia|].
+        apply in_or_app. right. apply (nth_error_In ac k). exact Hq. }
+    assert (Hdepth : forall q b, nth_error l q = Some b -> fst (fst b) <= dmax).
+    { intros q b Hq. rewrite Forall_forall in Hdep. apply Hdep. eapply nth_error_In. exact Hq. }
+    assert (Hother : forall q b, nth_error l q = Some b -> q <> p -> ~ contains dmax (fst b) x).
+    { intros q b Hq Hqp. rewrite Forall_forall in HdisA.
+      apply (not_container maxd dmax Hmaxd Hdmax a (fst b) x Ha (Hdepth q b Hq) (HdisA b (Hin_other q b Hq Hqp)) Hc). }
+    pose proof (try_mark_enc l stack p e x Hnp Ha) as T1. fold a in T1.
+    assert (Hself : (snd a =? x / 4 ^ (dmax - fst a)) = true) by (apply N.eqb_eq; symmetry; exact Hc).
+    rewrite Hself in T1.
+    unfold ff_visit. cbv zeta. cbn [fst snd]. rewrite Hcount.
+    destruct (N.ltb_spec (zun maxd a) (ff_zuniq maxd dmax x)) as [Hlt|Hge].
+    - (* the container is just below the insertion point *)
+      rewrite nth_error_map. destruct (nth_error l (S p)) as [b|] eqn:Eb; cbn [option_map].
+      + assert (Hbne : (enc b =? 2 * ff_zuniq maxd dmax x) = false).
+        { apply N.eqb_neq. intros E.
+          pose proof (Hin_other (S p) b Eb ltac:(lia)) as Hin.
+          rewrite Forall_forall in Hout. specialize (Hout (zf b)).
+          assert (In (zf b) (map zf bc ++ map zf ac)) by (rewrite <- map_app; apply in_map; exact Hin).
+          specialize (Hout H). unfold enc, zf in *. destruct (snd b); lia. }
+        rewrite Hbne. rewrite T1.
+        destruct (snd e).
+        * apply (try_mark_noncont l stack (S p) b x Eb (Hdepth _ _ Eb) (Hother _ _ Eb ltac:(lia))).
+        * apply (try_mark_noncont (mark_at p l) _ (S p) b x); [rewrite mark_at_other by lia; exact Eb|exact (Hdepth _ _ Eb)|exact (Hother _ _ Eb ltac:(lia))].
+      + exact T1.
+    - (* the container is at the insertion point *)
+      rewrite nth_error_map, Hnp. cbn [option_map].
+      assert (T0 : (match p with O => (map enc l, stack) | S j => ff_try_mark maxd dmax x j (map enc l, stack) end) = (map enc l, stack)).
+      { destruct p as [|j] eqn:Ep; [reflexivity|].
+        destruct (nth_error l j) as [b|] eqn:Eb.
+        - apply (try_mark_noncont l stack j b x Eb (Hdepth _ _ Eb) (Hother _ _ Eb ltac:(lia))).
+        - apply nth_error_None in Eb. assert (length l > j)%nat; [|lia].
+          unfold l. rewrite app_length. cbn [length]. unfold p in Ep. lia. }
+      destruct (N.eqb_spec (enc e) (2 * ff_zuniq maxd dmax x)) as [Heq|Hne].
+      + (* Ok(i): the element is the searched cell itself, not flagged *)
+        assert (Hf : snd e = false) by (unfold enc in Heq; destruct (snd e); [lia|reflexivity]).
+        rewrite Hf. rewrite (set_flag_enc l p e Hnp Hf), enc_half. reflexivity.
+      + rewrite T0. exact T1.
+  Qed.
+
+  (** no cell of the vector contains x: nothing changes *)
+  Theorem visit_nothing l stack x : fcells_ok l -> (forall e, In e l -> ~ contains dmax (fst e) x) ->
+    ff_visit maxd dmax (map enc l, stack) x = (map enc l, stack).
+  Proof.
+    intros [Hdep [Hs Hdis]] Hno.
+    assert (Hdepth : forall q b, nth_error l q = Some b -> fst (fst b) <= dmax).
+    { intros q b Hq. rewrite Forall_forall in Hdep. apply Hdep. eapply nth_error_In. exact Hq. }
+    assert (Hcand : forall q, ff_try_mark maxd dmax x q (map enc l, stack) = (map enc l, stack)).
+    { intros q. destruct (nth_error l q) as [b|] eqn:Eb.
+      - apply (try_mark_noncont l stack q b x Eb (Hdepth _ _ Eb)). apply Hno. eapply nth_error_In. exact Eb.
+      - unfold ff_try_mark. cbn [fst]. rewrite nth_error_map, Eb. reflexivity. }
+    unfold ff_visit. cbv zeta. cbn [fst snd].
+    set (i := ff_count_lt (2 * ff_zuniq maxd dmax x) (map enc l)).
+    rewrite nth_error_map. destruct (nth_error l i) as [b|] eqn:Eb; cbn [option_map].
+    - destruct (N.eqb_spec (enc b) (2 * ff_zuniq maxd dmax x)) as [Heq|Hne].
+      + exfalso. apply (Hno b (nth_error_In _ _ Eb)).
+        assert (Hz : zun maxd (fst b) = zun maxd (dmax, x)).
+        { unfold enc in Heq. unfold zun at 2. cbn [fst snd]. destruct (snd b); lia. }
+        apply zun_inj in Hz; [|pose proof (Hdepth _ _ Eb); lia|cbn [fst]; lia].
+        unfold contains. rewrite Hz. cbn [fst snd]. rewrite N.sub_diag. cbn. apply N.div_1_r.
+      + destruct i as [|j]; [apply Hcand|]. rewrite Hcand. apply Hcand.
+    - destruct i as [|j]; [reflexivity|apply Hcand].
+  Qed.
+End VisitGeneral.
+
+(** ---------- the flood fill computes reachability classes ----------
+    For ANY external-edge function [ext]: R a b := some cell of ext a is contained in the cell b of the MOC.
+    Every component is exactly the set of cells reachable through R from its first cell among the cells
+    that were still there when it was started. *)
+Section Components.
+  Variable maxd dmax : N.
+  Hypothesis Hmaxd : maxd <= 64.
+  Hypothesis Hdmax : dmax <= maxd.
+  Variable ext : N -> N -> list N.
+  Notation fcell := ((N * N) * bool)%type.
+
+  Definition Rel1 (a b : N * N) : Prop := exists x, In x (ext (fst a) (snd a)) /\ contains dmax b x.
+  Inductive ReachIn (C : list (N * N)) (a : N * N) : N * N -> Prop :=
+  | RI_refl : In a C -> ReachIn C a a
+  | RI_step b c : ReachIn C a b -> In c C -> Rel1 b c -> ReachIn C a c.
+
+  Definition flagged_of (l : list fcell) : list (N * N) := map fst (filter (fun e => snd e) l).
+  Definition is_flagged (l : list fcell) (c : N * N) : Prop := In (c, true) l.
+
+  Lemma mark_at_fst : forall l p, map fst (mark_at p l) = map fst l.
+  Proof.
+    induction l as [|e t IH]; intros p; [unfold mark_at; destruct p; reflexivity|].
+    destruct p as [|p]; unfold mark_at in *; cbn [firstn skipn app map]; [reflexivity|]. f_equal. apply IH.
+  Qed.
+
+  Lemma fop_map (P : N * N -> N * N -> Prop) : forall l : list fcell,
+    ForallOrdPairs (fun a b => P (fst a) (fst b)) l <-> ForallOrdPairs P (map fst l).
+  Proof.
+    induction l as [|e t IH]; cbn [map]; split; intros H; try constructor; inversion H as [|? ? H1 H2]; subst.
+    - rewrite Forall_map. exact H1.
+    - apply IH. exact H2.
+    - rewrite Forall_map in H1. exact H1.
+    - apply IH. exact H2.
+  Qed.
+
+  Lemma fcells_ok_fst l l' : map fst l = map fst l' -> fcells_ok maxd dmax l -> fcells_ok maxd dmax l'.
+  Proof.
+    intros E [H1 [H2 H3]]. unfold fcells_ok. split; [|split].
+    - rewrite <- (Forall_map fst (fun c => fst c <= dmax)) in *. rewrite <- E. exact H1.
+    - rewrite <- (map_map fst (zun maxd)) in *. rewrite <- E. exact H2.
+    - apply (fop_map (disj maxd)). rewrite <- E. apply (fop_map (disj maxd)). exact H3.
+  Qed.
+
+  (** at most one cell of a valid vector contains a given x *)
+  Lemma container_unique l a b x : fcells_ok maxd dmax l -> In a l -> In b l ->
+    contains dmax (fst a) x -> contains dmax (fst b) x -> fst a = fst b.
+  Proof.
+    intros [Hdep [Hs Hdis]] Ha Hb Ca Cb.
+    destruct (In_nth_error _ _ Ha) as [i Hi]. destruct (In_nth_error _ _ Hb) as [j Hj].
+    rewrite Forall_forall in Hdep.
+    assert (Hd : forall i j x y, (i < j)%nat -> nth_error l i = Some x -> nth_error l j = Some y -> disj maxd (fst x) (fst y)).
+    { clear - Hdis. induction Hdis as [|e t He Ht IH]; intros i j x y Hij Hx Hy; [destruct i; discriminate|].
+      destruct i as [|i]; destruct j as [|j]; try lia; cbn [nth_error] in *.
+      - inversion Hx; subst. rewrite Forall_forall in He. apply He. eapply nth_error_In. exact Hy.
+      - apply (IH i j); [lia|assumption|assumption]. }
+    destruct (Nat.lt_trichotomy i j) as [H|[H|H]].
+    - exfalso. apply (not_container maxd dmax Hmaxd Hdmax (fst a) (fst b) x (Hdep a Ha) (Hdep b Hb) (Hd i j a b H Hi Hj) Ca Cb).
+    - subst j. rewrite Hi in Hj. inversion Hj. reflexivity.
+    - exfalso. apply (not_container maxd dmax Hmaxd Hdmax (fst b) (fst a) x (Hdep b Hb) (Hdep a Ha) (Hd j i b a H Hj Hi) Cb Ca).
+  Qed.
+
+  (** effect of one search, in terms of flags: l' has the same cells, every flag of l is kept, a cell is newly
+      flagged iff it contains x and was not flagged, and exactly the newly flagged cells are pushed *)
+  Definition flags_step (x : N) (l l' : list fcell) (pushed : list N) : Prop :=
+    map fst l' = map fst l /\
+    (forall c, is_flagged l c -> is_flagged l' c) /\
+    (forall c, is_flagged l' c -> is_flagged l c \/ (contains dmax c x /\ In (c, false) l)) /\
+    (forall c, In c (map fst l) -> contains dmax c x -> is_flagged l' c) /\
+    (forall z, In z pushed <-> exists c, z = zun maxd c /\ is_flagged l' c /\ ~ is_flagged l c).
+
+
+  Lemma mark_at_in_old : forall l p e y, nth_error l p = Some e -> In y l -> y <> e -> In y (mark_at p l).
+  Proof.
+    induction l as [|a t IH]; intros p e y Hn Hy Hne; [destruct Hy|].
+    destruct p as [|p]; cbn [nth_error] in Hn; unfold mark_at in *; cbn [firstn skipn app].
+    - inversion Hn; subst a. destruct Hy as [Hy|Hy]; [congruence|right; exact Hy].
+    - destruct Hy as [Hy|Hy]; [left; exact Hy|right; apply (IH p e y Hn Hy Hne)].
+  Qed.
+  Lemma mark_at_in_new : forall l p e, nth_error l p = Some e -> In (fst e, true) (mark_at p l).
+  Proof.
+    induction l as [|a t IH]; intros p e Hn; [destruct p; discriminate|].
+    destruct p as [|p]; cbn [nth_error] in Hn; unfold mark_at in *; cbn [firstn skipn app].
+    - inversion Hn; subst a. left. reflexivity.
+    - right. apply (IH p e Hn).
+  Qed.
+  Lemma mark_at_in_inv : forall l p e y, nth_error l p = Some e -> In y (mark_at p l) -> y = (fst e, true) \/ In y l.
+  Proof.
+    induction l as [|a t IH]; intros p e y Hn Hy; [destruct p; discriminate|].
+    destruct p as [|p]; cbn [nth_error] in Hn; unfold mark_at in *; cbn [firstn skipn app] in Hy.
+    - inversion Hn; subst a. destruct Hy as [Hy|Hy]; [left; symmetry; exact Hy|right; right; exact Hy].
+    - destruct Hy as [Hy|Hy]; [right; left; exact Hy|]. destruct (IH p e y Hn Hy) as [H|H]; [left; exact H|right; right; exact H].
+  Qed.
+
+  Lemma sorted_lt_nodup : forall l : list N, StronglySorted N.lt l -> NoDup l.
+  Proof.
+    induction 1 as [|a t Ht IH Ha]; constructor; [|exact IH].
+    intros Hin. rewrite Forall_forall in Ha. specialize (Ha a Hin). lia.
+  Qed.
+
+  Lemma same_cell_same_entry l a b : fcells_ok maxd dmax l -> In a l -> In b l -> fst a = fst b -> a = b.
+  Proof.
+    intros [_ [Hs _]] Ha Hb E. apply sorted_lt_nodup in Hs.
+    assert (G : forall (l : list fcell), NoDup (map (fun e => zun maxd (fst e)) l) -> In a l -> In b l -> a = b).
+    { clear - E. induction l as [|x t IH]; intros Hn Ha Hb; [destruct Ha|].
+      cbn [map] in Hn. inversion Hn as [|? ? Hx Ht]; subst.
+      destruct Ha as [Ha|Ha], Hb as [Hb|Hb].
+      - congruence.
+      - subst x. exfalso. apply Hx. rewrite E. apply (in_map (fun e => zun maxd (fst e))). exact Hb.
+      - subst x. exfalso. apply Hx. rewrite <- E. apply (in_map (fun e => zun maxd (fst e))). exact Ha.
+      - apply IH; assumption. }
+    apply (G l Hs Ha Hb).
+  Qed.
+
+  Lemma find_container (x : N) : forall l : list fcell,
+    (exists bc e ac, l = bc ++ e :: ac /\ contains dmax (fst e) x) \/ (forall e, In e l -> ~ contains dmax (fst e) x).
+  Proof.
+    induction l as [|a t IH]; [right; intros e []|].
+    destruct (N.eq_dec (x / 4 ^ (dmax - fst (fst a))) (snd (fst a))) as [E|E].
+    - left. exists [], a, t. split; [reflexivity|exact E].
+    - destruct IH as [[bc [e [ac [E1 E2]]]]|IH].
+      + left. exists (a :: bc), e, ac. split; [rewrite E1; reflexivity|exact E2].
+      + right. intros e [<-|He]; [exact E|apply IH; exact He].
+  Qed.
+
+  Lemma visit_flags l stack x : fcells_ok maxd dmax l ->
+    exists l' pushed, ff_visit maxd dmax (map (enc maxd) l, stack) x = (map (enc maxd) l', stack ++ pushed) /\ flags_step x l l' pushed.
+  Proof.
+    intros Hok.
+    destruct (find_container x l) as [[bc [e [ac [El Hc]]]]|Hno].
+    - pose proof (visit_general maxd dmax Hmaxd Hdmax bc e ac stack x) as V. cbv zeta in V. rewrite <- El in V.
+      specialize (V Hok Hc).
+      assert (Hin : In e l) by (rewrite El; apply in_or_app; right; left; reflexivity).
+      assert (Hnp : nth_error l (length bc) = Some e).
+      { rewrite El. rewrite nth_error_app2 by lia. rewrite Nat.sub_diag. reflexivity. }
+      assert (Huniq : forall c, In c (map fst l) -> contains dmax c x -> c = fst e).
+      { intros c Hcin Hcc. apply in_map_iff in Hcin. destruct Hcin as [y [<- Hy]].
+        apply (container_unique l y e x Hok Hy Hin Hcc Hc). }
+      destruct (snd e) eqn:Ef.
+      + exists l, []. rewrite app_nil_r. split; [exact V|]. unfold flags_step. split; [reflexivity|]. split; [auto|]. split; [auto|]. split.
+        * intros c Hcin Hcc. rewrite (Huniq c Hcin Hcc). unfold is_flagged. destruct e as [ce fe]. cbn [fst snd] in *. subst fe. exact Hin.
+        * intros z. split; [intros []|]. intros [c [_ [H1 H2]]]. contradiction.
+      + exists (mark_at (length bc) l), [zun maxd (fst e)]. split; [exact V|].
+        assert (Ee : e = (fst e, false)) by (destruct e; cbn [fst snd] in *; subst; reflexivity).
+        unfold flags_step. split; [apply mark_at_fst|]. split; [|split; [|split]].
+        * intros c Hf. unfold is_flagged in *. apply (mark_at_in_old l _ e _ Hnp Hf). rewrite Ee. intros Z. inversion Z.
+        * intros c Hf. unfold is_flagged in *. destruct (mark_at_in_inv l _ e _ Hnp Hf) as [H|H]; [|left; exact H].
+          right. inversion H; subst c. split; [exact Hc|]. rewrite <- Ee. exact Hin.
+        * intros c Hcin Hcc. rewrite (Huniq c Hcin Hcc). apply (mark_at_in_new l _ e Hnp).
+        * intros z. split.
+          -- intros [<-|[]]. exists (fst e). split; [reflexivity|]. split; [apply (mark_at_in_new l _ e Hnp)|].
+             unfold is_flagged. intros Hf. pose proof (same_cell_same_entry l (fst e, true) e Hok Hf Hin eq_refl) as Z.
+             rewrite Ee in Z. inversion Z.
+          -- intros [c [-> [H1 H2]]]. unfold is_flagged in *.
+             destruct (mark_at_in_inv l _ e _ Hnp H1) as [H|H]; [|contradiction].
+             inversion H; subst c. left. reflexivity.
+    - exists l, []. rewrite app_nil_r. split; [apply (visit_nothing maxd dmax Hmaxd Hdmax l stack x Hok Hno)|].
+      unfold flags_step. split; [reflexivity|]. split; [auto|]. split; [auto|]. split.
+      + intros c Hcin Hcc. apply in_map_iff in Hcin. destruct Hcin as [y [<- Hy]]. exfalso. exact (Hno y Hy Hcc).
+      + intros z. split; [intros []|]. intros [c [_ [H1 H2]]]. contradiction.
+  Qed.
+
+  Definition flags_steps (xs : list N) (l l' : list fcell) (pushed : list N) : Prop :=
+    map fst l' = map fst l /\
+    (forall c, is_flagged l c -> is_flagged l' c) /\
+    (forall c, is_flagged l' c -> is_flagged l c \/ (In c (map fst l) /\ exists x, In x xs /\ contains dmax c x)) /\
+    (forall c x, In c (map fst l) -> In x xs -> contains dmax c x -> is_flagged l' c) /\
+    (forall z, In z pushed <-> exists c, z = zun maxd c /\ is_flagged l' c /\ ~ is_flagged l c).
+
+  Lemma fcell_eq_dec : forall a b : fcell, {a = b} + {a <> b}.
+  Proof. decide equality; [apply Bool.bool_dec|decide equality; apply N.eq_dec]. Qed.
+  Lemma flagged_dec l c : {is_flagged l c} + {~ is_flagged l c}.
+  Proof. unfold is_flagged. apply in_dec. apply fcell_eq_dec. Qed.
+
+  Lemma visits_flags : forall xs l stack, fcells_ok maxd dmax l ->
+    exists l' pushed, fold_left (ff_visit maxd dmax) xs (map (enc maxd) l, stack) = (map (enc maxd) l', stack ++ pushed) /\
+                      flags_steps xs l l' pushed.
+  Proof.
+    induction xs as [|x xs IH]; intros l stack Hok.
+    - exists l, []. rewrite app_nil_r. split; [reflexivity|]. unfold flags_steps. split; [reflexivity|]. split; [auto|]. split; [auto|]. split.
+      + intros c x _ [].
+      + intros z. split; [intros []|]. intros [c [_ [H1 H2]]]. contradiction.
+    - cbn [fold_left]. destruct (visit_flags l stack x Hok) as [l1 [p1 [V1 [A1 [A2 [A3 [A4 A5]]]]]]]. rewrite V1.
+      assert (Hok1 : fcells_ok maxd dmax l1) by (apply (fcells_ok_fst l l1); [symmetry; exact A1|exact Hok]).
+      destruct (IH l1 (stack ++ p1) Hok1) as [l2 [p2 [V2 [B1 [B2 [B3 [B4 B5]]]]]]]. rewrite V2.
+      exists l2, (p1 ++ p2). split; [rewrite <- app_assoc; reflexivity|].
+      unfold flags_steps. split; [congruence|]. split; [auto|]. split; [|split].
+      + intros c Hc. destruct (B3 c Hc) as [H|[H1 [y [Hy1 Hy2]]]].
+        * destruct (A3 c H) as [H'|[H1 H2]]; [left; exact H'|].
+          right. split; [apply (in_map fst) in H2; exact H2|]. exists x. split; [left; reflexivity|exact H1].
+        * right. split; [rewrite <- A1; exact H1|]. exists y. split; [right; exact Hy1|exact Hy2].
+      + intros c y Hc [<-|Hy] Hcy.
+        * apply B2. apply (A4 c Hc Hcy).
+        * apply (B4 c y); [rewrite A1; exact Hc|exact Hy|exact Hcy].
+      + intros z. rewrite in_app_iff, A5, B5. split.
+        * intros [[c [E [H1 H2]]]|[c [E [H1 H2]]]]; exists c; (split; [exact E|split]); auto.
+        * intros [c [E [H1 H2]]]. destruct (flagged_dec l1 c) as [F|F]; [left|right]; exists c; auto.
+  Qed.
+
+  Lemma insert_in x l z : In z (ff_insert x l) <-> z = x \/ In z l.
+  Proof.
+    induction l as [|y t IH]; cbn [ff_insert In]; [split; intros [H|H]; auto|].
+    destruct (x <=? y); cbn [In]; [split; intros [H|H]; auto|]. rewrite IH. split; intros H; tauto.
+  Qed.
+  Lemma sort_in l z : In z (ff_sort l) <-> In z l.
+  Proof.
+    induction l as [|x t IH]; [reflexivity|]. cbn [ff_sort fold_right]. fold (ff_sort t). rewrite insert_in, IH. cbn [In]. split; intros [H|H]; auto.
+  Qed.
+
+  Variable start : N * N.
+
+  Definition Inv (l : list fcell) (stack : list N) : Prop :=
+    (forall z, In z stack -> exists c, z = zun maxd c /\ is_flagged l c) /\
+    (forall c, is_flagged l c -> ~ In (zun maxd c) stack ->
+               forall b, In b (map fst l) -> Rel1 c b -> is_flagged l b) /\
+    (forall c, is_flagged l c -> ReachIn (map fst l) start c).
+
+  Lemma flagged_depth l c : fcells_ok maxd dmax l -> is_flagged l c -> fst c <= maxd /\ In c (map fst l).
+  Proof.
+    intros [Hd _] Hf. unfold is_flagged in Hf. rewrite Forall_forall in Hd. specialize (Hd _ Hf). cbn [fst] in Hd.
+    split; [lia|]. apply (in_map fst) in Hf. exact Hf.
+  Qed.
+
+  Lemma inner_inv : forall fuel l stack, (length stack + U (map (enc maxd) l) < fuel)%nat ->
+    fcells_ok maxd dmax l -> Inv l stack ->
+    exists l', ff_inner maxd dmax ext fuel (map (enc maxd) l) stack = Some (map (enc maxd) l') /\
+               map fst l' = map fst l /\ Inv l' [] /\ (forall c, is_flagged l c -> is_flagged l' c).
+  Proof.
+    induction fuel as [|f IH]; intros l stack Hf Hok HI; [lia|].
+    cbn [ff_inner]. destruct stack as [|s0 st0] eqn:ES.
+    - exists l. split; [reflexivity|]. split; [reflexivity|]. split; [exact HI|auto].
+    - rewrite <- ES in *. cbv zeta.
+      assert (Hne : stack <> []) by (rewrite ES; discriminate).
+      pose proof (app_removelast_last 0 Hne) as Esplit.
+      set (z := last stack 0) in *. set (stack' := removelast stack) in *.
+      destruct HI as [Ia [Ib Ic]].
+      destruct (Ia z ltac:(rewrite Esplit; apply in_or_app; right; left; reflexivity)) as [c [Ez Fc]].
+      destruct (flagged_depth l c Hok Fc) as [Hcd HcC].
+      assert (Edec : ff_from_zuniq maxd z = c).
+      { rewrite Ez. unfold zun. rewrite (from_zuniq_zuniq maxd (fst c) (snd c) Hcd Hmaxd). destruct c; reflexivity. }
+      rewrite Edec.
+      destruct (visits_flags (ext (fst c) (snd c)) l stack' Hok) as [l1 [pushed [V [A1 [A2 [A3 [A4 A5]]]]]]].
+      pose proof (visits_ok maxd dmax (ext (fst c) (snd c)) (map (enc maxd) l, stack')) as [_ Hnum].
+      rewrite V in *. cbn [fst snd] in Hnum |- *.
+      assert (Hok1 : fcells_ok maxd dmax l1) by (apply (fcells_ok_fst l l1); [symmetry; exact A1|exact Hok]).
+      set (s2 := if (length stack' <? length (stack' ++ pushed))%nat then ff_sort (stack' ++ pushed) else stack' ++ pushed).
+      assert (Hs2in : forall y, In y s2 <-> In y stack' \/ In y pushed).
+      { intros y. unfold s2. destruct (_ <? _)%nat; rewrite ?sort_in, in_app_iff; reflexivity. }
+      assert (Hs2len : length s2 = length (stack' ++ pushed)).
+      { unfold s2. destruct (_ <? _)%nat; rewrite ?sort_length; reflexivity. }
+      assert (Hlen : S (length stack') = length stack).
+      { assert (Hl : length stack = length (stack' ++ [z])) by (rewrite <- Esplit; reflexivity). rewrite Hl, app_length. cbn [length]. lia. }
+      destruct (IH l1 s2) as [l' [E1 [E2 [E3 E4]]]].
+      + rewrite Hs2len. lia.
+      + exact Hok1.
+      + unfold Inv. rewrite A1. split; [|split].
+        * intros y Hy. apply Hs2in in Hy. destruct Hy as [Hy|Hy].
+          -- destruct (Ia y ltac:(rewrite Esplit; apply in_or_app; left; exact Hy)) as [c' [E' F']]. exists c'. split; [exact E'|apply A2; exact F'].
+          -- apply A5 in Hy. destruct Hy as [c' [E' [F' _]]]. exists c'. split; assumption.
+        * intros c0 F0 Hnot b Hb HR.
+          assert (Hn1 : ~ In (zun maxd c0) stack') by (intros Z; apply Hnot; apply Hs2in; left; exact Z).
+          assert (Hn2 : ~ In (zun maxd c0) pushed) by (intros Z; apply Hnot; apply Hs2in; right; exact Z).
+          destruct (flagged_dec l c0) as [Fl|Fl].
+          -- destruct (N.eq_dec (zun maxd c0) z) as [Ezz|Ezz].
+             ++ (* c0 is the popped cell *)
+                assert (c0 = c).
+                { destruct (flagged_depth l c0 Hok Fl) as [Hd0 _]. apply (zun_inj maxd Hmaxd c0 c Hd0 Hcd). congruence. }
+                subst c0. destruct HR as [x [Hx1 Hx2]]. apply (A4 b x Hb Hx1 Hx2).
+             ++ apply A2. apply (Ib c0 Fl); [|exact Hb|exact HR].
+                rewrite Esplit. intros Z. apply in_app_or in Z. destruct Z as [Z|[Z|[]]]; [exact (Hn1 Z)|congruence].
+          -- exfalso. apply Hn2. apply A5. exists c0. auto.
+        * intros c0 F0. destruct (A3 c0 F0) as [Fl|[HC [x [Hx1 Hx2]]]]; [apply Ic; exact Fl|].
+          apply (RI_step (map fst l) start c c0); [apply Ic; exact Fc|exact HC|]. exists x. split; assumption.
+      + exists l'. split; [exact E1|]. split; [congruence|]. split; [exact E3|]. intros c0 F0. apply E4. apply A2. exact F0.
+  Qed.
+End Components.
+
+Section Components2.
+  Variable maxd dmax : N.
+  Hypothesis Hmaxd : maxd <= 64.
+  Hypothesis Hdmax : dmax <= maxd.
+  Variable ext : N -> N -> list N.
+  Notation fcell := ((N * N) * bool)%type.
+
+  Let enc_half := enc_half maxd dmax Hmaxd Hdmax.
+  Let enc_flag := enc_flag maxd dmax Hmaxd Hdmax.
+
+  Definition fresh (cells : list (N * N)) : list fcell := map (fun c => (c, false)) cells.
+
+  Lemma fresh_enc cells : map (enc maxd) (fresh cells) = map (fun c : N * N => 2 * ff_zuniq maxd (fst c) (snd c)) cells.
+  Proof. unfold fresh. rewrite map_map. apply map_ext. intros c. unfold enc, zun. cbn [fst snd]. lia. Qed.
+
+  Lemma fresh_fst cells : map fst (fresh cells) = cells.
+  Proof. unfold fresh. rewrite map_map. cbn [fst]. apply map_id. Qed.
+
+  Lemma filter_flagged_enc (l : list fcell) : filter ff_flagged (map (enc maxd) l) = map (enc maxd) (filter (fun e => snd e) l).
+  Proof. induction l as [|e t IH]; [reflexivity|]. cbn [map filter]. rewrite enc_flag. destruct (snd e); cbn [map]; rewrite IH; reflexivity. Qed.
+  Lemma filter_unflagged_enc (l : list fcell) :
+    filter (fun y => negb (ff_flagged y)) (map (enc maxd) l) = map (enc maxd) (filter (fun e => negb (snd e)) l).
+  Proof. induction l as [|e t IH]; [reflexivity|]. cbn [map filter]. rewrite enc_flag. destruct (snd e); cbn [negb map]; rewrite IH; reflexivity. Qed.
+
+  Lemma unflagged_fresh (l : list fcell) : filter (fun e => negb (snd e)) l = fresh (map fst (filter (fun e => negb (snd e)) l)).
+  Proof.
+    induction l as [|e t IH]; [reflexivity|]. cbn [filter]. destruct e as [c f]. cbn [snd]. destruct f; cbn [negb]; [exact IH|].
+    cbn [map fst fresh]. unfold fresh in IH. rewrite <- IH. reflexivity.
+  Qed.
+
+  Lemma U_enc (l : list fcell) : U (map (enc maxd) l) = length (filter (fun e => negb (snd e)) l).
+  Proof. unfold U. rewrite filter_unflagged_enc, map_length. reflexivity. Qed.
+
+  Lemma decode_cells (l : list fcell) : Forall (fun e => fst (fst e) <= maxd) l ->
+    map (fun y => ff_from_zuniq maxd (y / 2)) (map (enc maxd) l) = map fst l.
+  Proof.
+    induction 1 as [|e t He _ IH]; [reflexivity|]. cbn [map]. rewrite IH, enc_half. unfold zun.
+    rewrite (from_zuniq_zuniq maxd _ _ He Hmaxd). destruct (fst e); reflexivity.
+  Qed.
+
+  Lemma sorted_filter (f : fcell -> bool) (g : fcell -> N) : forall l, StronglySorted N.lt (map g l) -> StronglySorted N.lt (map g (filter f l)).
+  Proof.
+    induction l as [|e t IH]; intros H; [constructor|]. cbn [map] in H. inversion H as [|? ? Ht Ha]; subst.
+    cbn [filter]. destruct (f e); [|apply IH; exact Ht]. cbn [map]. constructor; [apply IH; exact Ht|].
+    rewrite Forall_map in *. rewrite Forall_forall in *. intros y Hy. apply filter_In in Hy. apply Ha. tauto.
+  Qed.
+
+  Lemma fop_filter {A} (P : A -> A -> Prop) (f : A -> bool) : forall l, ForallOrdPairs P l -> ForallOrdPairs P (filter f l).
+  Proof.
+    induction 1 as [|a t Ha Ht IH]; [constructor|]. cbn [filter]. destruct (f a); [|exact IH]. constructor; [|exact IH].
+    rewrite Forall_forall in *. intros y Hy. apply filter_In in Hy. apply Ha. tauto.
+  Qed.
+
+  Lemma fcells_ok_filter (f : fcell -> bool) l : fcells_ok maxd dmax l -> fcells_ok maxd dmax (filter f l).
+  Proof.
+    intros [H1 [H2 H3]]. split; [|split].
+    - rewrite Forall_forall in *. intros e He. apply filter_In in He. apply H1. tauto.
+    - apply sorted_filter. exact H2.
+    - apply fop_filter. exact H3.
+  Qed.
+
+  Inductive SplitSpec : list (N * N) -> list (list (N * N)) -> Prop :=
+  | SS_nil : SplitSpec [] []
+  | SS_cons a t (l' : list fcell) comps :
+      map fst l' = a :: t ->
+      (forall b, is_flagged l' b <-> In b (a :: t) /\ ReachIn dmax ext (a :: t) a b) ->
+      SplitSpec (map fst (filter (fun e => negb (snd e)) l')) comps ->
+      SplitSpec (a :: t) (map fst (filter (fun e => snd e) l') :: comps).
+
+  Lemma outer_spec : forall fuel cells l_acc, fcells_ok maxd dmax (fresh cells) -> (length cells < fuel)%nat ->
+    exists comps, ff_outer maxd dmax ext fuel (map (enc maxd) (fresh cells)) l_acc = Some (l_acc ++ comps) /\ SplitSpec cells comps.
+  Proof.
+    induction fuel as [|f IH]; intros cells l_acc Hok Hf; [lia|].
+    destruct cells as [|a t].
+    - exists []. rewrite app_nil_r. split; [reflexivity|constructor].
+    - cbn [fresh map ff_outer]. fold (fresh t).
+      set (l0 := ((a, true) : fcell) :: fresh t).
+      assert (E0 : (enc maxd (a, false) + 1) :: map (enc maxd) (fresh t) = map (enc maxd) l0).
+      { unfold l0. cbn [map]. f_equal. unfold enc. cbn [fst snd]. lia. }
+      rewrite E0. rewrite enc_half. cbn [fst].
+      assert (Hfst0 : map fst l0 = a :: t) by (unfold l0; cbn [map fst]; rewrite fresh_fst; reflexivity).
+      assert (Hok0 : fcells_ok maxd dmax l0).
+      { apply (fcells_ok_fst maxd dmax (fresh (a :: t)) l0); [rewrite fresh_fst, Hfst0; reflexivity|exact Hok]. }
+      assert (HI0 : Inv maxd dmax ext a l0 [zun maxd a]).
+      { unfold Inv. split; [|split].
+        - intros z [<-|[]]. exists a. split; [reflexivity|]. left. reflexivity.
+        - intros c Fc Hn. exfalso. apply Hn. unfold is_flagged, l0 in Fc. destruct Fc as [Fc|Fc]; [inversion Fc; left; reflexivity|].
+          unfold fresh in Fc. apply in_map_iff in Fc. destruct Fc as [y [Ey _]]. inversion Ey.
+        - intros c Fc. unfold is_flagged, l0 in Fc. destruct Fc as [Fc|Fc].
+          + inversion Fc; subst c. constructor. rewrite Hfst0. left. reflexivity.
+          + unfold fresh in Fc. apply in_map_iff in Fc. destruct Fc as [y [Ey _]]. inversion Ey. }
+      destruct (inner_inv maxd dmax Hmaxd Hdmax ext a (S (length (enc maxd (a, false) :: map (enc maxd) (fresh t)))) l0 [zun maxd a]) as [l' [E1 [E2 [E3 E4]]]].
+      + rewrite U_enc. unfold l0. cbn [filter snd negb length]. rewrite map_length.
+        pose proof (filter_len (fun e : fcell => negb (snd e)) (fresh t)). unfold fresh in *. rewrite map_length in *. lia.
+      + exact Hok0.
+      + exact HI0.
+      + rewrite E1. rewrite filter_flagged_enc, filter_unflagged_enc.
+        assert (Hok' : fcells_ok maxd dmax l') by (apply (fcells_ok_fst maxd dmax l0 l'); [symmetry; exact E2|exact Hok0]).
+        assert (Hdec : map (fun y => ff_from_zuniq maxd (y / 2)) (map (enc maxd) (filter (fun e => snd e) l')) = map fst (filter (fun e => snd e) l')).
+        { apply decode_cells. destruct (fcells_ok_filter (fun e => snd e) l' Hok') as [Hd _]. eapply Forall_impl; [|exact Hd]. intros e He. cbn beta in He. lia. }
+        rewrite Hdec. rewrite (unflagged_fresh l').
+        set (rest := map fst (filter (fun e => negb (snd e)) l')).
+        assert (Hokr : fcells_ok maxd dmax (fresh rest)).
+        { unfold rest. rewrite <- unflagged_fresh. apply fcells_ok_filter. exact Hok'. }
+        assert (Hlr : (length rest < f)%nat).
+        { unfold rest. rewrite map_length.
+          assert (Hfl : is_flagged l' a) by (apply E4; left; reflexivity).
+          assert (Hl' : length l' = S (length t)) by (rewrite <- (map_length fst l'), E2, Hfst0; reflexivity).
+          assert (Hlt : (length (filter (fun e => negb (snd e)) l') < length l')%nat).
+          { clear - Hfl. unfold is_flagged in Hfl. induction l' as [|e r IHr]; [destruct Hfl|].
+            cbn [filter]. destruct Hfl as [->|Hfl]; cbn [snd negb length].
+            - pose proof (filter_len (fun e : fcell => negb (snd e)) r). lia.
+            - specialize (IHr Hfl). destruct (negb (snd e)); cbn [length]; lia. }
+          cbn [length] in Hf. lia. }
+        destruct (IH rest (l_acc ++ [map fst (filter (fun e => snd e) l')]) Hokr Hlr) as [comps [C1 C2]].
+        exists (map fst (filter (fun e => snd e) l') :: comps). split; [rewrite C1, <- app_assoc; reflexivity|].
+        assert (Hfst' : map fst l' = a :: t) by (rewrite E2; exact Hfst0).
+        apply (SS_cons a t l' comps); [exact Hfst'| |exact C2].
+        destruct E3 as [_ [Ib Ic]]. rewrite Hfst' in Ib, Ic. intros b. split.
+        * intros Fb. split; [|apply Ic; exact Fb].
+          destruct (flagged_depth maxd dmax Hmaxd Hdmax l' b Hok' Fb) as [_ Hin]. rewrite Hfst' in Hin. exact Hin.
+        * intros [_ HR]. induction HR as [Ha|b c Hab IHab Hc HRel].
+          -- apply E4. left. reflexivity.
+          -- apply (Ib b IHab (fun Z => Z) c Hc HRel).
+  Qed.
+
+  (** the flood fill of split_into_joint_mocs_gen, for ANY external-edge function: it ends, and every component
+      is the set of the cells reachable (through "an external-edge cell of a is inside b") from the first
+      remaining cell, in vector order; the next component is computed on the cells that are left *)
+  Theorem split_components cells :
+    Forall (fun c => fst c <= dmax) cells ->
+    StronglySorted N.lt (map (zun maxd) cells) ->
+    ForallOrdPairs (disj maxd) cells ->
+    exists comps, ff_split maxd dmax ext cells = Some comps /\ SplitSpec cells comps.
+  Proof.
+    intros H1 H2 H3. unfold ff_split. rewrite <- fresh_enc.
+    assert (Hok : fcells_ok maxd dmax (fresh cells)).
+    { unfold fcells_ok, fresh. split; [|split].
+      - rewrite Forall_map. exact H1.
+      - rewrite map_map. exact H2.
+      - apply (fop_map (disj maxd)). rewrite map_map. cbn [fst]. rewrite map_id. exact H3. }
+    destruct (outer_spec (S (length (map (enc maxd) (fresh cells)))) cells [] Hok) as [comps [C1 C2]].
+    { unfold fresh. rewrite !map_length. lia. }
+    exists comps. split; [exact C1|exact C2].
+  Qed.
+End Components2.
